@@ -214,8 +214,8 @@ class FlattenTVUnit:
     def streams(self, tier):
         s = seed()
         if tier == "quick":
-            return [["flatten", "1", "2", "1", "0", "small"], ["flatten", "3", "3", "12", str(s), "small"],
-                    ["flatten", "1", "1", "1", "0", "all"], ["flatten", "2", "2", "40", str(s), "all"]]
+            return [["flatten", "1", "2", "1", "0", "small"], ["flatten", "3", "3", "60", str(s), "small"],
+                    ["flatten", "1", "1", "1", "0", "all"], ["flatten", "2", "2", "160", str(s), "all"]]
         return [["flatten", "1", "3", "1", "0", "small"], ["flatten", "4", "4", "400", str(s), "small"],
                 ["flatten", "1", "1", "1", "0", "all"], ["flatten", "2", "2", "4", str(s), "all"]]
 
@@ -232,8 +232,8 @@ class FlattenTVUnit:
             return r
         streams = self.streams(tier)
         r.bounds = {"graphs": "all DAGs with K interior nodes over {neg,add,sub,min,and} ('small') x operands {X,Y,1.5,(0.0 for K<=2),earlier node}, "
-                    "1-3 roots incl. duplicate and constant roots; 'all' = every unary/binary opcode; quick: K<=2 exhaustive, K=3 1-in-12, "
-                    "all-opcode K=1 exhaustive and K=2 1-in-40; thorough: K<=3 exhaustive, K=4 1-in-400, all-opcode K=2 1-in-4",
+                    "1-3 roots incl. duplicate and constant roots; 'all' = every unary/binary opcode; quick: K<=2 exhaustive, K=3 1-in-60, "
+                    "all-opcode K=1 exhaustive and K=2 1-in-160; thorough: K<=3 exhaustive, K=4 1-in-400, all-opcode K=2 1-in-4",
                     "streams": [" ".join(a) for a in streams]}
         cand = []
         for args in streams:
@@ -339,9 +339,9 @@ class SimplifyTVUnit:
             return [["simplify", "1", "2", "1", "0", "255-255", "reuse"], ["simplify", "1", "2", "1", "0", "255-3", "reuse"],
                     ["simplify", "3", "3", "8", s, "3-3", "reuse"], ["simplify", "3", "3", "8", s, "255-255", "reuse"]]
         if tier == "quick":
-            return [["simplify", "1", "2", "1", "0", "255-255", "fresh"], ["simplify", "2", "2", "4", s, "255-3", "fresh"],
-                    ["simplify", "2", "2", "4", s, "3-255", "fresh"], ["simplify", "3", "3", "40", s, "255-255", "fresh"],
-                    ["simplify", "3", "3", "80", s, "3-3", "fresh"]]
+            return [["simplify", "1", "2", "1", "0", "255-255", "fresh"], ["simplify", "2", "2", "6", s, "255-3", "fresh"],
+                    ["simplify", "2", "2", "6", s, "3-255", "fresh"], ["simplify", "3", "3", "150", s, "255-255", "fresh"],
+                    ["simplify", "3", "3", "300", s, "3-3", "fresh"]]
         return [["simplify", "1", "2", "1", "0", "255-255", "fresh"], ["simplify", "1", "2", "1", "0", "255-3", "fresh"],
                 ["simplify", "1", "2", "1", "0", "3-255", "fresh"], ["simplify", "3", "3", "4", s, "255-255", "fresh"],
                 ["simplify", "3", "3", "8", s, "3-3", "fresh"], ["simplify", "4", "4", "2000", s, "255-255", "fresh"]]
@@ -602,6 +602,115 @@ def bytecode_native_replay(rec, bc, optable, x):
         if outs_t != outs_b:
             return False, "decoded bytecode computes different outputs than the tape (concrete interpretation)"
     return True, ""
+
+
+class ConstructTVUnit:
+    """C12: nodes built through the Context constructors evaluate like the
+    expression as written whenever that evaluation stays finite (up to the
+    sign of zero); building the same expression twice gives the same node."""
+
+    name = "tv:construct"
+
+    def streams(self, tier):
+        s = str(seed())
+        if tier == "quick":
+            return [["construct", "1", "1", "0"], ["construct", "2", "6", s]]
+        return [["construct", "1", "1", "0"], ["construct", "2", "1", "0"]]
+
+    def run(self, prop, tier, only=None):
+        import jitsmt
+
+        r = UnitResult(self.name)
+        r.functions = ["fidget_core::Context::{add,sub,mul,div,min,max,and,or,neg,abs,recip,sqrt,square,floor,ceil,round,not,compare,"
+                       "atan2,modulo,mix,rand,sin,...} incl. op_unary/op_binary constant folding, identity elimination and operand sorting"]
+        r.assumptions = ["IEEE-754 binary32 semantics of the SMT FP theory for + - * / sqrt floor ceil round, the documented min/max/and/or/"
+                         "compare/not/rand/mix semantics (same specification as E-X); libm, atan2 and modulo are uninterpreted (folding them on "
+                         "constants is not judged)", "z3 4.8.12"]
+        r.bounds = {"expressions": "level 1: every constructor x operands from {X, Y, 0, -0, 1, -1, 2, 0.5, 3, inf, -inf, NaN, min denormal} on either side "
+                    "(same node twice included), unary of unary; level 2: op2(op1(X,b), c) in both operand orders and op2(e, e) for "
+                    "op1 in {add,sub,min,max}, op2 in the first eight binary constructors, b,c in {X, Y, 0, 1, -1, 2}; variables fully symbolic; "
+                    "quick samples level 2 1-in-6", "streams": [" ".join(a) for a in self.streams(tier)]}
+        if not T.build_tvdump():
+            r.inconclusive.append("tvdump build failed")
+            return r
+        cand = []
+        for args in self.streams(tier):
+            recs = list(T.stream_records(args))
+            for rec in recs:
+                rec["_args"] = args
+            chunks = list(T.chunks(recs, 40))
+            with mp.Pool(NPROC) as pool:
+                for ch, (out, secs, nq) in zip(chunks, pool.imap(jitsmt.work_construct, [[{k: v for k, v in rec.items() if not k.startswith("_")}
+                                                                                          for rec in ch] for ch in chunks])):
+                    r.solver_s += secs
+                    for rec, x in zip(ch, out):
+                        r.obligations += 1
+                        r.queries += 2
+                        r.extra["programs"] = r.extra.get("programs", 0) + 1
+                        if x["status"] == "unsat" and not x["problems"]:
+                            r.discharged += 1
+                            if x.get("premise_sat") and rec["expr"] != rec["graph"]:
+                                r.nontrivial += 1
+                                if len(r.samples) < 4:
+                                    r.samples.append({"as_written": rec["expr"], "context_graph": rec["graph"],
+                                                      "verdict": "unsat: equal for all variable values whenever the evaluation as written is finite"})
+                        elif x["status"] in ("sat", "fail") or x["problems"]:
+                            cand.append((rec, x))
+                        else:
+                            r.inconclusive.append("expression %s: solver answered %s" % (rec["expr"], x["status"]))
+        r.extra["disagreements_checked"] = 0
+        seen = set()
+        for rec, x in cand[:MAX_REPLAYS * 4]:
+            r.extra["disagreements_checked"] += 1
+            model = x.get("model") or {}
+            vecs = [[model.get("x_X", 0x3FC00000), model.get("x_Y", 0x40200000)]]
+            for a in (0x3F800000, 0xBF800000, 0x40400000, 0x00000000, 0x80000000, 0x3F000000):
+                for b in (0x40000000, 0xC0000000, 0x3F800000):
+                    vecs.append([a, b])
+            arg = ";".join(",".join("0x%08x" % v for v in vec) for vec in vecs)
+            rc, out, _ = T.run([T.TVDUMP] + rec["_args"] + [str(rec["id"]), arg])
+            res = []
+            for line in out.splitlines():
+                try:
+                    res.append(json.loads(line))
+                except Exception:
+                    pass
+            bad = [y for y in res if not y.get("ok")]
+            key = "tv:construct:%s" % construct_signature(rec)
+            if bad or x["status"] == "fail" or x["problems"]:
+                path = save_replay(prop, "construct_%s_%d" % (rec["_args"][1], rec["id"]),
+                                   {"engine": "tv", "kind": "construct", "args": rec["_args"], "id": rec["id"], "vectors": arg,
+                                    "as_written": rec["expr"], "context_graph": rec.get("graph"), "first_bad": bad[0] if bad else x["problems"]})
+                if key not in seen:
+                    seen.add(key)
+                    r.findings.append(Finding(prop, key, "Context builds %s as %s: %s" % (rec["expr"], rec.get("graph"),
+                                                                                        json.dumps(bad[0]) if bad else x["problems"]), {}, path))
+            else:
+                r.inconclusive.append("expression %s: solver reports a difference that Context::eval does not show on %d points" % (
+                    rec["expr"], len(vecs)))
+        return r
+
+
+def construct_signature(rec):
+    """Role-based identifier: the outermost operation as written plus the
+    kinds of its operands (constant classes, not values)."""
+    def kind(lines, i):
+        t = lines[i].split()
+        if t[0] == "const":
+            v = int(t[1], 16)
+            if v in (0, 0x80000000):
+                return "zero" if v == 0 else "negzero"
+            return "const"
+        if t[0] == "in":
+            return "var"
+        return t[1]
+    e = rec["expr"]
+    t = e[rec["expr_root"]].split()
+    if t[0] == "bin":
+        return "%s(%s,%s)" % (t[1], kind(e, int(t[2])), kind(e, int(t[3])))
+    if t[0] == "un":
+        return "%s(%s)" % (t[1], kind(e, int(t[2])))
+    return t[0]
 
 
 def graph_signature(rec):
